@@ -133,6 +133,11 @@ void harness(void)
 #if defined KF_C10_1
 	/* known finding C10-1: a chunk ending in a backslash (the escaped byte arrives later) */
 	ASSUME(in.b[SPLIT - 1] != '\\');
+# if SPLIT >= 2
+	/* ... or in backslash-newline: esccpy() lets the backslash swallow the newline, the line chopper
+	 * has counted it as the newline of a fold */
+	ASSUME(!(in.b[SPLIT - 2] == '\\' && in.b[SPLIT - 1] == '\n'));
+# endif
 #endif
 #if defined KF_C10_2
 	/* known finding C10-2: a folded line split between the newline and its space/tab */
@@ -159,11 +164,15 @@ void harness(void)
 	(void)_ical_pull(&P1);
 
 	CHECK(!L1.oob && !L2.oob, "a completed line fits the line stash");
+#if !defined SAFETY_ONLY
+	/* (lines longer than the stash are dropped on purpose, differently per chunking: the
+	 * over-long obligations check memory safety and termination only) */
 	CHECK(L1.n == L2.n, "the same number of lines is delivered however the bytes arrive");
 	for (unsigned k = 0; k < MAXL; k++) {
 		if (k < L1.n && k < L2.n) {
 			CHECK(L1.len[k] == L2.len[k] && L1.pk[k] == L2.pk[k], "the same lines are delivered however the bytes arrive");
 		}
 	}
+#endif
 	WITNESS_POINT();
 }
